@@ -773,6 +773,24 @@ fn eval(name: &str, a: &[Value]) -> Value {
                 Err(e) => json!({"Err": format!("{:#}", e).chars().take(120).collect::<String>()}),
             }
         }
+        // the real single-script executor with keep_crlf off on a command that prints CR CR LF → recorded stdout of the test case
+        "script_crlf" => {
+            use scrut::executors::executor::Executor;
+            let mut config = scrut::config::TestCaseConfig::default_cram();
+            config.keep_crlf = Some(false);
+            let test = scrut::testcase::TestCase { title: "t".into(), shell_expression: "printf 'a\\r\\r\\n'".into(), expectations: vec![], exit_code: None, line_number: 1, config };
+            let tmp = std::env::temp_dir().join(format!("verif-crlf-{}", std::process::id()));
+            let _ = std::fs::create_dir_all(&tmp);
+            let context = scrut::executors::context::ContextBuilder::default()
+                .work_directory(tmp.clone()).temp_directory(tmp.clone()).file(std::path::PathBuf::from("file.t"))
+                .config(scrut::config::DocumentConfig::default_cram()).build().unwrap();
+            let res = scrut::executors::bash_script_executor::BashScriptExecutor::default().execute_all(&[&test], &context);
+            let _ = std::fs::remove_dir_all(&tmp);
+            match res {
+                Ok(outs) => { let so: Vec<u8> = (&outs[0].stdout).into(); json!({"stdout": so}) }
+                Err(e) => json!({"error": format!("{:#}", e)}),
+            }
+        }
         // the real single-script (Cram) executor on a list of shell expressions: [[expr…], combined?] → per test stdout / stderr / status
         "script_execute_all" => {
             use scrut::executors::executor::Executor;
